@@ -3,6 +3,9 @@ use serde_with::serde_as;
 use starknet_crypto::Felt;
 use swiftness_commitment::vector;
 
+const MAX_LOG_BLOWUP_FACTOR: u64 = 16;
+const MAX_N_QUERIES: u64 = 48;
+
 #[serde_as]
 #[derive(Debug, PartialEq, Serialize, Deserialize)]
 pub struct StarkConfig {
@@ -50,6 +53,15 @@ impl StarkConfig {
     ) -> Result<(), Error> {
         self.proof_of_work.validate()?;
 
+        ensure!(
+            self.log_n_cosets >= Felt::ONE && self.log_n_cosets <= MAX_LOG_BLOWUP_FACTOR.into(),
+            Error::OutOfBounds { min: 1, max: MAX_LOG_BLOWUP_FACTOR }
+        );
+        ensure!(
+            self.n_queries >= Felt::ONE && self.n_queries <= MAX_N_QUERIES.into(),
+            Error::OutOfBounds { min: 1, max: MAX_N_QUERIES }
+        );
+
         ensure!(security_bits <= self.security_bits(), Error::InsufficientSecurity);
 
         // Validate traces config.
@@ -67,7 +79,16 @@ impl StarkConfig {
             .validate(log_eval_domain_size, self.n_verifier_friendly_commitment_layers)?;
 
         // Validate Fri config.
-        self.fri.validate(self.log_n_cosets, self.n_verifier_friendly_commitment_layers)?;
+        let log_expected_input_degree =
+            self.fri.validate(self.log_n_cosets, self.n_verifier_friendly_commitment_layers)?;
+        // The FRI input must be the evaluation domain of the trace.
+        ensure!(
+            log_expected_input_degree == self.log_trace_domain_size,
+            Error::FriInputDegreeMismatch {
+                expected: self.log_trace_domain_size,
+                actual: log_expected_input_degree
+            }
+        );
         Ok(())
     }
 }
@@ -91,6 +112,10 @@ pub enum Error {
     DynamicParamsMissing,
     #[error("insufficient number ofsecurity bits")]
     InsufficientSecurity,
+    #[error("value out of bounds {min} - {max}")]
+    OutOfBounds { min: u64, max: u64 },
+    #[error("fri input degree mismatch, expected log {expected}, got log {actual}")]
+    FriInputDegreeMismatch { expected: Felt, actual: Felt },
 }
 
 #[cfg(not(feature = "std"))]
@@ -111,4 +136,8 @@ pub enum Error {
     DynamicParamsMissing,
     #[error("insufficient number ofsecurity bits")]
     InsufficientSecurity,
+    #[error("value out of bounds {min} - {max}")]
+    OutOfBounds { min: u64, max: u64 },
+    #[error("fri input degree mismatch, expected log {expected}, got log {actual}")]
+    FriInputDegreeMismatch { expected: Felt, actual: Felt },
 }
